@@ -463,45 +463,31 @@ impl<'a, R: Clone> AsyncGlobalCache<'a, R> {
         self.cache.insert(key.to_string(), (value, timestamp, 0));
     }
 
-    /// Checks if a key is already present in the cache and updates its position in the eviction order
-    /// if the eviction policy is Least Recently Used (LRU) or Adaptive Replacement Cache (ARC).
+    /// Handles an insert for a key that is already present in the cache.
+    ///
+    /// The new value must replace the old one (exactly like the sync caches do), otherwise a
+    /// result recomputed after `invalidate_on` reported the entry stale would be discarded and
+    /// the stale value served again. The old entry and its position in the eviction queue are
+    /// dropped here; the caller then continues as for a fresh key (eviction checks, queue push,
+    /// store with a new timestamp and frequency 0).
     ///
     /// # Parameters
     /// - `key`: A reference to the key being checked as a `&str`.
-    /// - `order`: A mutable reference to a locked `VecDeque<String>` wrapped in a `MutexGuard`.
-    ///    This represents the ordered list of keys, used to determine eviction order.
+    /// - `order`: A mutable reference to the locked eviction queue.
     ///
     /// # Returns
-    /// - `true` if the key is already present in the cache and was processed for eviction policy.
-    /// - `false` if the key was not found in the cache.
-    ///
-    /// # Behavior
-    /// 1. If the key exists in the cache:
-    ///    - If the eviction policy is `LRU` or `ARC`, the key's position in the eviction list (`order`)
-    ///      is updated to reflect that it was recently accessed by removing the old position and appending
-    ///      the key to the back of the `VecDeque`.
-    ///    - The function returns `true`, indicating the key is already in the cache.
-    /// 2. If the key does not exist in the cache:
-    ///    - The function returns `false`, allowing the caller to handle the key insertion.
-    ///
-    /// # Eviction Policies
-    /// - `LRU` (Least Recently Used): Keys recently accessed should stay in the cache,
-    ///   and their access order is updated.
-    /// - `ARC` (Adaptive Replacement Cache): Performs similarly to LRU but may enhance
-    ///   replacement policies in specific cases.
+    /// Always `false`: the caller has to perform the insertion.
     fn is_already_key_inserted(
         &self,
         key: &str,
         order: &mut MutexGuard<RawMutex, VecDeque<String>>,
     ) -> bool {
         if self.cache.contains_key(key) {
-            // Key already exists, just update the order if LRU or ARC
-            if self.policy == EvictionPolicy::LRU || self.policy == EvictionPolicy::ARC {
-                order.retain(|k| k != key);
-                order.push_back(key.to_string());
-            }
-            // Don't insert again
-            return true;
+            // Key already exists: the new value must replace it (as in the sync caches).
+            // Drop the old entry and its queue position; the caller then stores the new
+            // value as a fresh entry, so a refreshed result is never shadowed by a stale one.
+            self.cache.remove(key);
+            order.retain(|k| k != key);
         }
         false
     }
